@@ -373,10 +373,147 @@ def gen_classes():
     return "\n".join(L) + "\n"
 
 
+def gen_state_inventory():
+    """instance attributes of the four stateful classes (fresh, after a successful and after a
+    failing use) and the module-level objects of the modules with a write-site scan"""
+    import ast as pyast
+    cp = importlib.import_module("pycparser.c_parser")
+    lx = importlib.import_module("pycparser.c_lexer")
+    cg = importlib.import_module("pycparser.c_generator")
+    ca = importlib.import_module("pycparser.c_ast")
+    L = ["/-! GENERATED by tools/extract.py (state inventory of c_parser / c_lexer / c_generator / c_ast) — do not edit. -/",
+         "namespace PycModel.Generated"]
+
+    def attrs(o):
+        names = set()
+        if hasattr(o, "__dict__"):
+            names |= set(vars(o))
+        for k in type(o).__mro__:
+            for sl in getattr(k, "__slots__", ()) or ():
+                if hasattr(o, sl):
+                    names.add(sl)
+        return names
+
+    p = cp.CParser()
+    sets = {"CParser": set(attrs(p)), "CLexer": set(attrs(p.clex)), "TokenStream": set(attrs(p._tokens))}
+    for text in ["typedef int T; T f(T x) { return x; }", "int a = ;", "void f() { { int x = @", "struct S { int a; } s;"]:
+        try:
+            p.parse(text, "f.c")
+        except Exception:
+            pass
+        sets["CParser"] |= attrs(p)
+        sets["CLexer"] |= attrs(p.clex)
+        sets["TokenStream"] |= attrs(p._tokens)
+    g = cg.CGenerator()
+    sets["CGenerator"] = set(attrs(g))
+    try:
+        g.visit(cp.CParser().parse("int f(int a) { if (a) { return 1; } return 0; } struct S { int x; };"))
+    except Exception:
+        pass
+    sets["CGenerator"] |= attrs(g)
+    v = ca.NodeVisitor()
+    sets["NodeVisitor"] = set(attrs(v))
+    v.visit(cp.CParser().parse("int a;"))
+    sets["NodeVisitor"] |= attrs(v)
+    for k in sorted(sets):
+        L.append("def fields%s : List String := %s" % (k, str_list(sorted(sets[k]))))
+    # module-level objects: name, type, mutable?, written after import?
+    rows = []
+    for mod in (cp, lx, cg, ca):
+        src = open(mod.__file__).read()
+        tree = pyast.parse(src)
+        # names assigned/mutated inside function bodies through `global`, attribute/subscript stores on module names,
+        # or calls of mutating methods on module-level names
+        module_names = {n for n, o in vars(mod).items() if not n.startswith("__")}
+        written = set()
+        dynamic = False
+        MUT = {"append", "extend", "insert", "pop", "remove", "clear", "update", "setdefault", "add", "discard", "sort", "reverse", "popitem"}
+        for fn in pyast.walk(tree):
+            if isinstance(fn, (pyast.FunctionDef, pyast.AsyncFunctionDef, pyast.Lambda)):
+                params = set()
+                if not isinstance(fn, pyast.Lambda):
+                    params = {a.arg for a in fn.args.args + fn.args.kwonlyargs}
+                    if fn.args.vararg:
+                        params.add(fn.args.vararg.arg)
+                local = set(params)
+                for n in pyast.walk(fn):
+                    if isinstance(n, pyast.Name) and isinstance(n.ctx, pyast.Store):
+                        local.add(n.id)
+                globs = set()
+                for n in pyast.walk(fn):
+                    if isinstance(n, pyast.Global):
+                        globs |= set(n.names)
+                for n in pyast.walk(fn):
+                    if isinstance(n, pyast.Name) and isinstance(n.ctx, pyast.Store) and n.id in globs:
+                        written.add(n.id)
+                    if isinstance(n, (pyast.Attribute, pyast.Subscript)) and isinstance(n.ctx, (pyast.Store, pyast.Del)):
+                        b = n.value
+                        while isinstance(b, (pyast.Attribute, pyast.Subscript)):
+                            b = b.value
+                        if isinstance(b, pyast.Name) and b.id in module_names and b.id not in (local - globs):
+                            written.add(b.id)
+                    if isinstance(n, pyast.Call) and isinstance(n.func, pyast.Attribute) and n.func.attr in MUT:
+                        b = n.func.value
+                        while isinstance(b, (pyast.Attribute, pyast.Subscript)):
+                            b = b.value
+                        if isinstance(b, pyast.Name) and b.id in module_names and b.id not in (local - globs):
+                            written.add(b.id)
+                    if isinstance(n, pyast.Call) and isinstance(n.func, pyast.Name) and n.func.id in ("setattr", "globals", "exec", "eval", "vars", "delattr"):
+                        dynamic = True
+        for name, obj in sorted(vars(mod).items()):
+            if name.startswith("__") or inspect.ismodule(obj) or inspect.isclass(obj) or inspect.isfunction(obj) or inspect.isbuiltin(obj):
+                continue
+            if getattr(obj, "__module__", None) == "typing" or type(obj).__module__ == "typing":
+                continue
+            mutable = isinstance(obj, (list, dict, set, bytearray))
+            rows.append("(%s, %s, %s, %s)" % (lean_str(mod.__name__.split(".")[-1] + "." + name), lean_str(type(obj).__name__),
+                                            "true" if mutable else "false", "true" if name in written else "false"))
+        rows.append("(%s, \"dynamic-write-scan\", false, %s)" % (lean_str(mod.__name__.split(".")[-1] + ".<dynamic>"), "true" if dynamic else "false"))
+        # class-level mutable attributes and mutable default arguments
+        for cname, cls in sorted(vars(mod).items()):
+            if not inspect.isclass(cls) or cls.__module__ != mod.__name__:
+                continue
+            for an, av in sorted(vars(cls).items()):
+                if an.startswith("__"):
+                    continue
+                if isinstance(av, (list, dict, set)):
+                    w = False
+                    # written if any method stores into self.<an>[...] / calls a mutator on it / assigns cls.<an>
+                    for n in pyast.walk(tree):
+                        if isinstance(n, pyast.Call) and isinstance(n.func, pyast.Attribute) and n.func.attr in MUT:
+                            b = n.func.value
+                            if isinstance(b, pyast.Attribute) and b.attr == an:
+                                w = True
+                        if isinstance(n, pyast.Subscript) and isinstance(n.ctx, (pyast.Store, pyast.Del)) and isinstance(n.value, pyast.Attribute) and n.value.attr == an:
+                            w = True
+                    rows.append("(%s, %s, true, %s)" % (lean_str("%s.%s.%s" % (mod.__name__.split(".")[-1], cname, an)), lean_str("class-attr " + type(av).__name__), "true" if w else "false"))
+                if inspect.isfunction(av):
+                    for dflt in (av.__defaults__ or ()):
+                        if isinstance(dflt, (list, dict, set)):
+                            # mutated if the parameter name is target of a mutator call / subscript store in the function
+                            fsrc = pyast.parse(inspect.getsource(av).lstrip() if False else "pass")
+                            pn = [p_ for p_, d_ in zip(list(inspect.signature(av).parameters)[-len(av.__defaults__):], av.__defaults__) if d_ is dflt][0]
+                            w = False
+                            for fn in pyast.walk(tree):
+                                if isinstance(fn, pyast.FunctionDef) and fn.name == an:
+                                    for n in pyast.walk(fn):
+                                        if isinstance(n, pyast.Call) and isinstance(n.func, pyast.Attribute) and n.func.attr in MUT and isinstance(n.func.value, pyast.Name) and n.func.value.id == pn:
+                                            w = True
+                                        if isinstance(n, pyast.Subscript) and isinstance(n.ctx, (pyast.Store, pyast.Del)) and isinstance(n.value, pyast.Name) and n.value.id == pn:
+                                            w = True
+                                        if isinstance(n, pyast.AugAssign) and isinstance(n.target, pyast.Name) and n.target.id == pn:
+                                            w = True
+                            rows.append("(%s, %s, true, %s)" % (lean_str("%s.%s.%s(%s=)" % (mod.__name__.split(".")[-1], cname, an, pn)), lean_str("default-arg " + type(dflt).__name__), "true" if w else "false"))
+    L.append("/-- (object, type, is a mutable container, some function of the module writes to it after import) -/")
+    L.append("def moduleState : List (String × String × Bool × Bool) := " + lean_list(rows, True))
+    L.append("end PycModel.Generated")
+    return "\n".join(L) + "\n"
+
+
 def main():
     changed = []
     errors = {}
-    for name, fn in [("LexTables.lean", gen_lex), ("ParserTables.lean", gen_parser_tables), ("Classes.lean", gen_classes)]:
+    for name, fn in [("LexTables.lean", gen_lex), ("ParserTables.lean", gen_parser_tables), ("Classes.lean", gen_classes), ("StateInventory.lean", gen_state_inventory)]:
         try:
             if write_if_changed(name, fn()):
                 changed.append(name)
